@@ -1251,13 +1251,16 @@ initializeMessageQueues(CS104_Slave self, int lowPrioMaxQueueSize, int highPrioM
     if (lowPrioMaxQueueSize < 1)
         lowPrioMaxQueueSize = CONFIG_CS104_MESSAGE_QUEUE_SIZE;
 
-    self->asduQueue = MessageQueue_create(lowPrioMaxQueueSize);
+    /* the queues of a previous start are kept when the server is started again */
+    if (self->asduQueue == NULL)
+        self->asduQueue = MessageQueue_create(lowPrioMaxQueueSize);
 
     /* initialize high priority queue */
     if (highPrioMaxQueueSize < 1)
         highPrioMaxQueueSize = CONFIG_CS104_MESSAGE_QUEUE_HIGH_PRIO_SIZE;
 
-    self->connectionAsduQueue = HighPriorityASDUQueue_create(highPrioMaxQueueSize);
+    if (self->connectionAsduQueue == NULL)
+        self->connectionAsduQueue = HighPriorityASDUQueue_create(highPrioMaxQueueSize);
 }
 #endif /* (CONFIG_CS104_SUPPORT_SERVER_MODE_SINGLE_REDUNDANCY_GROUP == 1) */
 
@@ -1268,8 +1271,12 @@ initializeConnectionSpecificQueues(CS104_Slave self)
     int i;
 
     for (i = 0; i < CONFIG_CS104_MAX_CLIENT_CONNECTIONS; i++) {
-        self->masterConnections[i]->lowPrioQueue = MessageQueue_create(self->maxLowPrioQueueSize);
-        self->masterConnections[i]->highPrioQueue = HighPriorityASDUQueue_create(self->maxHighPrioQueueSize);
+        /* CS104_Slave_stop (threaded mode) keeps the queues: do not allocate them again on the next start */
+        if (self->masterConnections[i]->lowPrioQueue == NULL)
+            self->masterConnections[i]->lowPrioQueue = MessageQueue_create(self->maxLowPrioQueueSize);
+
+        if (self->masterConnections[i]->highPrioQueue == NULL)
+            self->masterConnections[i]->highPrioQueue = HighPriorityASDUQueue_create(self->maxHighPrioQueueSize);
     }
 }
 
